@@ -2319,6 +2319,7 @@ sexp sexp_apply (sexp ctx, sexp proc, sexp args) {
               root_thread, ctx, sexp_thread_debug_name(ctx));
 #endif
 #if CHIBI_VERIF
+      if (getenv("CHIBI_VERIF_THREADS"))
       sexp_verif_emit("\"e\":\"End\",\"t\":%d,\"err\":%d", sexp_verif_thread_id(ctx), sexp_exceptionp(_ARG1) ? 1 : 0);
 #endif
       sexp_context_refuel(ctx) = fuel = 0;
